@@ -140,6 +140,53 @@ fn c19_pool_push_flush_pop() {
     assert!(pool.pop().is_none() && pool.len() == 0, "C19.pool.empty_after_popping_everything");
 }
 
+/// Queue-capacity overflow inside `BlockPool::push`: starting from a pool whose worker-local queue is full (256 blocks
+/// pushed through the real `push_relaxed`, assembled by the `pool_with_local_queue` hook), the 257th push hands the full
+/// queue to the global list without losing, duplicating or double-counting a block.
+#[kani::proof]
+#[kani::unwind(259)]
+#[kani::stub(mmtk::scheduler::worker::current_worker_ordinal, stub_ordinal)]
+#[kani::stub(core::hint::spin_loop, no_spin)]
+fn c19_pool_overflow_step_deep() {
+    const CAP: usize = 256;
+    assert!(Queue::<Block>::CAPACITY == CAP);
+    let q = Queue::<Block>::new();
+    let mut i = 0;
+    while i < CAP {
+        let r = unsafe { q.push_relaxed(nth_block(i)) };
+        assert!(r.is_ok(), "C19.queue.push_succeeds_below_capacity");
+        i += 1;
+    }
+    let pool = mmtk::verif_hooks::block_pool::pool_with_local_queue(q);
+    assert!(pool.len() == CAP, "C19.pool.len_equals_blocks_held");
+    unsafe { ORDINAL = 0 };
+    let extra = any_block();
+    kani::assume(extra.start() > nth_block(CAP).start()); // not one of the blocks already held
+    pool.push(extra);
+    assert!(pool.len() == CAP + 1, "C19.pool.len_after_overflow_counts_each_block_once");
+    // every held block is still held exactly once: symbolic witness w among the old blocks, and the new block
+    let w: usize = kani::any();
+    kani::assume(w < CAP);
+    let (mut total, mut n_w, mut n_extra) = (0usize, 0usize, 0usize);
+    pool.iterate_blocks(&mut |x| {
+        total += 1;
+        if x == nth_block(w) {
+            n_w += 1;
+        }
+        if x == extra {
+            n_extra += 1;
+        }
+    });
+    assert!(total == CAP + 1, "C19.pool.no_block_lost_on_overflow");
+    assert!(n_w == 1 && n_extra == 1, "C19.pool.iterate_yields_each_held_block_once");
+    // the overflowed queue is global now: a block of it is handed out without a flush, and the count follows
+    let p = pool.pop();
+    assert!(p.is_some() && p != Some(extra), "C19.pool.overflowed_queue_is_poppable");
+    let idx = p.unwrap().start().as_usize() / Block::BYTES - 1;
+    assert!(idx < CAP, "C19.pool.pop_returns_only_pushed_blocks");
+    assert!(pool.len() == CAP, "C19.pool.len_decreases_with_each_pop");
+}
+
 /// Queue-capacity overflow: the 257th push by one worker moves the full local queue to the global list without loss.
 /// EXPERIMENT (not part of the check): CBMC needs more than 45 minutes for the 257 pushes and 257 pops.
 #[kani::proof]
